@@ -392,4 +392,117 @@ Proof.
 Qed.
 End OneStep.
 
+Lemma INV_init : INV ginit.
+Proof.
+  unfold INV. repeat split.
+  - intros p tg d. exists []. cbn. split; [constructor|]. split; [reflexivity|]. intros l [].
+  - intros p tg d. exists []. cbn. split; [constructor|]. split; [reflexivity|]. intros l [].
+  - intros q dst x [].
+  - intros q d1 x1 d2 x2 [].
+  - intros q dst x [].
+  - intros q dst x [].
+  - intros q tg d D. cbn in D. discriminate.
+  - intros q tg [].
+  - intros q tg v [].
+Qed.
+
+Lemma INV_step : forall g e, INV g -> INV (gstep g e).
+Proof.
+  intros g e I. destruct (gstep_cases g e) as [E|(p & st' & out & r & offer & Hp & Q & CR & E1 & E2 & E3)].
+  - rewrite E. exact I.
+  - eapply INV_onestep; eauto.
+Qed.
+
+Theorem INV_run : forall es, INV (run es).
+Proof. intros es. apply (grun_ind n t skip H toolong byz); [exact INV_init|exact INV_step]. Qed.
+
+(* ---- consequences --------------------------------------------------------------------------------------- *)
+(* all r-ready messages in the network that honest parties sent for one tag carry the same digest *)
+Lemma ready_digest_unique : forall g, INV g -> forall q1 d1 x1 q2 d2 x2,
+  In (q1, d1, x1) (gsent g) -> In (q2, d2, x2) (gsent g) -> m_act x1 = 3 -> m_act x2 = 3 -> mtag x1 = mtag x2 ->
+  m_pay x1 = m_pay x2.
+Proof.
+  intros g (C1 & _ & _ & A3 & _ & A5 & _) q1 d1 x1 q2 d2 x2 I1 I2 A1 A2 T.
+  destruct (A5 _ _ _ I1 A1) as (p1 & _ & E1). destruct (A5 _ _ _ I2 A2) as (p2 & _ & E2).
+  destruct (C1 p1 (mtag x1) (m_pay x1)) as (L1 & ND1 & Len1 & AL1).
+  destruct (C1 p2 (mtag x2) (m_pay x2)) as (L2 & ND2 & Len2 & AL2).
+  destruct (quorum_intersect_honest n t B L1 L2) as (l & J1 & J2 & NB); auto; try lia.
+  { intros l J. apply AL1 in J. tauto. } { intros l J. apply AL2 in J. tauto. }
+  destruct (AL1 l J1) as (_ & _ & [Y|(m1 & Im1 & Tm1 & Am1 & Pm1)]); [exfalso; auto|].
+  destruct (AL2 l J2) as (_ & _ & [Y|(m2 & Im2 & Tm2 & Am2 & Pm2)]); [exfalso; auto|].
+  rewrite <- Pm1, <- Pm2. eapply A3; eauto. congruence.
+Qed.
+
+(* an agreed digest is backed by an r-ready that an honest party really sent *)
+Lemma dbar_has_ready : forall g, INV g -> forall p tg d, dbar (gp g p) tg = Some d ->
+  exists l m, In (l, p, m) (gsent g) /\ mtag m = tg /\ m_act m = 3 /\ m_pay m = d.
+Proof.
+  intros g (_ & C2 & _ & _ & _ & _ & A7 & _) p tg d D. apply A7 in D.
+  destruct (C2 p tg d) as (L & ND & Len & AL).
+  destruct (nodup_exceeds_honest B L ND) as (l & J & NB); [lia|].
+  destruct (AL l J) as (_ & _ & [Y|(m & Im & Tm & Am & Pm)]); [exfalso; auto|]. exists l, m. auto.
+Qed.
+
+Theorem dbar_agree : forall g, INV g -> forall p q tg d d',
+  dbar (gp g p) tg = Some d -> dbar (gp g q) tg = Some d' -> d = d'.
+Proof.
+  intros g I p q tg d d' D1 D2.
+  destruct (dbar_has_ready g I _ _ _ D1) as (l1 & m1 & I1 & T1 & A1 & P1).
+  destruct (dbar_has_ready g I _ _ _ D2) as (l2 & m2 & I2 & T2 & A2 & P2).
+  rewrite <- P1, <- P2. eapply ready_digest_unique; eauto. congruence.
+Qed.
+
+(* an r-ready of an honest party goes back to an r-echo of a non-faulty party, which goes back to an r-send received on the
+   link of the tag's sender *)
+Lemma ready_has_send : forall g, INV g -> forall q dst x, In (q, dst, x) (gsent g) -> m_act x = 3 ->
+  exists e m, mtag m = mtag x /\ m_act m = 1 /\ m_pay x = H (m_pay m) /\
+              (byz (m_j x) = true \/ In (m_j x, e, m) (gsent g)).
+Proof.
+  intros g (C1 & _ & _ & _ & A4 & A5 & _) q dst x I A.
+  destruct (A5 _ _ _ I A) as (p1 & _ & E1).
+  destruct (C1 p1 (mtag x) (m_pay x)) as (L & ND & Len & AL).
+  destruct (nodup_exceeds_honest B L ND) as (l & J & NB); [lia|].
+  destruct (AL l J) as (_ & _ & [Y|(m1 & Im1 & Tm1 & Am1 & Pm1)]); [exfalso; auto|].
+  destruct (A4 _ _ _ Im1 Am1) as (m & Tm & Am & Pm & M).
+  exists l, m. rewrite <- (mtag_j _ _ Tm1). repeat split; try congruence; exact M.
+Qed.
+
+Hypothesis H_nonzero : forall m, H m <> 0.
+
+Lemma dbar_nonzero : forall g, INV g -> forall p tg d, dbar (gp g p) tg = Some d -> d <> 0.
+Proof.
+  intros g I p tg d D. destruct (dbar_has_ready g I _ _ _ D) as (l & x & Ix & Tx & Ax & Px).
+  destruct (ready_has_send g I _ _ _ Ix Ax) as (e & m & _ & _ & Pm & _). rewrite <- Px, Pm. apply H_nonzero.
+Qed.
+
+(* AGREEMENT: two honest deliveries of one slot (ID, sender, s) carry values with the same digest *)
+Theorem agreement_digest : forall es p q tg v v',
+  In (p, tg, v) (glog (run es)) -> In (q, tg, v') (glog (run es)) ->
+  ~ retrieved (gp (run es) p) tg -> ~ retrieved (gp (run es) q) tg -> H v = H v'.
+Proof.
+  intros es p q tg v v' I1 I2 N1 N2. pose proof (INV_run es) as I.
+  pose proof I as (_ & _ & _ & _ & _ & _ & _ & _ & A8b).
+  destruct (A8b _ _ _ I1) as [R|(d1 & D1 & X1)]; [contradiction|].
+  destruct (A8b _ _ _ I2) as [R|(d2 & D2 & X2)]; [contradiction|].
+  pose proof (dbar_nonzero _ I _ _ _ D1). pose proof (dbar_nonzero _ I _ _ _ D2).
+  pose proof (dbar_agree _ I _ _ _ _ _ D1 D2).
+  destruct X1; [|contradiction]. destruct X2; [|contradiction]. congruence.
+Qed.
+
+(* INTEGRITY: a delivered slot of a non-faulty sender j was sent by j as r-send, with a value of the same digest *)
+Theorem integrity_digest : forall es p id j s v,
+  In (p, (id, j, s), v) (glog (run es)) -> ~ retrieved (gp (run es) p) (id, j, s) -> byz j = false ->
+  exists e m, In (j, e, m) (gsent (run es)) /\ mtag m = (id, j, s) /\ m_act m = 1 /\ H (m_pay m) = H v.
+Proof.
+  intros es p id j s v I1 N1 Hj. pose proof (INV_run es) as I.
+  pose proof I as (_ & _ & _ & _ & _ & _ & _ & _ & A8b).
+  destruct (A8b _ _ _ I1) as [R|(d1 & D1 & X1)]; [contradiction|].
+  pose proof (dbar_nonzero _ I _ _ _ D1). destruct X1 as [X1|]; [|contradiction].
+  destruct (dbar_has_ready _ I _ _ _ D1) as (l & x & Ix & Tx & Ax & Px).
+  destruct (ready_has_send _ I _ _ _ Ix Ax) as (e & m & Tm & Am & Pm & M).
+  assert (J : m_j x = j). { unfold mtag in Tx. inversion Tx. reflexivity. }
+  rewrite J in M. destruct M as [M|M]; [congruence|].
+  exists e, m. repeat split; auto; congruence.
+Qed.
+
 End Bracha.
